@@ -454,6 +454,67 @@ func extractC01() *lean {
 		l.def("flow_"+fn, "List String", leanStrList(flow(util, fn)), flow(util, fn))
 	}
 
+	// deepening round 3: the S2S token endpoint's consumers of the presentation dates and of the presenter = subject rule
+	_, iamVal := parseFile("auth/api/iam/validation.go")
+	_, iamS2S := parseFile("auth/api/iam/s2s_vptoken.go")
+	l.def("flow_validatePresentationSigner", "List String", leanStrList(flow(iamVal, "validatePresentationSigner")), flow(iamVal, "validatePresentationSigner"))
+	l.def("flow_validateS2SPresentationMaxValidity", "List String", leanStrList(flow(iamS2S, "validateS2SPresentationMaxValidity")), flow(iamS2S, "validateS2SPresentationMaxValidity"))
+	if v, ok := c01Const(iamS2S, "s2sMaxPresentationValidity"); ok {
+		l.def("s2sMaxValidityMs", "Int", c01DurationMs(v), v)
+	} else {
+		l.def("s2sMaxValidityMs", "Int", ".unknown_s2sMaxPresentationValidity_missing", nil)
+	}
+	// the FIRST loop over the envelope's presentations in handleS2SAccessTokenRequest (order of the per-presentation checks, threading of
+	// credentialSubjectID) and every later call that consumes the presentations (VerifyVP with its flags)
+	var s2sLoop, s2sVerify []string
+	if fd := funcDecl(iamS2S, "handleS2SAccessTokenRequest"); fd != nil {
+		first := true
+		ast.Inspect(fd.Body, func(n ast.Node) bool {
+			if rs, ok := n.(*ast.RangeStmt); ok && c01Expr(rs.X) == "pexEnvelope.Presentations" && first {
+				first = false
+				ast.Inspect(rs.Body, func(m ast.Node) bool {
+					switch x := m.(type) {
+					case *ast.IfStmt:
+						g := c01Expr(x.Cond)
+						if x.Init != nil {
+							g = c01Stmt(x.Init) + "; " + g
+						}
+						s2sLoop = append(s2sLoop, "if "+g)
+					case *ast.AssignStmt:
+						s2sLoop = append(s2sLoop, c01Stmt(x))
+					case *ast.ReturnStmt:
+						var rs []string
+						for _, e := range x.Results {
+							rs = append(rs, c01Expr(e))
+						}
+						s2sLoop = append(s2sLoop, "return "+strings.Join(rs, ","))
+					}
+					return true
+				})
+				return false
+			}
+			if ce, ok := n.(*ast.CallExpr); ok {
+				if sel, ok := ce.Fun.(*ast.SelectorExpr); ok && sel.Sel.Name == "VerifyVP" {
+					s2sVerify = append(s2sVerify, c01Expr(ce))
+				}
+			}
+			return true
+		})
+		for _, st := range fd.Body.List {
+			if ds, ok := st.(*ast.DeclStmt); ok {
+				if gd, ok := ds.Decl.(*ast.GenDecl); ok {
+					for _, sp := range gd.Specs {
+						if vs, ok := sp.(*ast.ValueSpec); ok && len(vs.Names) == 1 && vs.Names[0].Name == "credentialSubjectID" {
+							s2sLoop = append([]string{"var credentialSubjectID " + c01Expr(vs.Type) + fmt.Sprintf(" values=%d", len(vs.Values))}, s2sLoop...)
+						}
+					}
+				}
+			}
+		}
+	}
+	l.def("s2sFirstLoop", "List String", leanStrList(s2sLoop), s2sLoop)
+	l.def("s2sVerifyVPCalls", "List String", leanStrList(s2sVerify), s2sVerify)
+
 	// StatusList2021.update: how a refreshed list replaces the stored copy (every column, the expanded bitstring included)
 	var onConflict []string
 	if fd := funcDecl(slv, "update"); fd != nil {
